@@ -68,7 +68,7 @@ def generate(rng, tier):
 
     # sign + verify + compact round trip: every key x both forms, lengths across the 252/253 boundary
     i = 0
-    for d in ks:
+    for d in (ks if thorough else ks[::2]):
         for c in (0, 1):
             n = MSG_LENS[i % len(MSG_LENS)]
             A("bsm.compact_verify", kb(d), c, msg(rng, n), prefixes()[i % 3])
